@@ -43,7 +43,7 @@ REQUIRED = [
     'approval_candidateError_iff', 'approval_voteError_iff', 'scoreBase_typeError_iff', 'enumscore_typeError_iff',
     'range_typeError_iff',
     'valid_approval_perm', 'validScoreBase_perm', 'valid_enumscore_perm', 'valid_range_perm', 'accept_order_independent',
-    'valid_ranked_perm', 'accept_ranked_order_independent',
+    'valid_ranked_perm', 'accept_ranked_order_independent', 'ranked_default_names', 'approval_names',
 ]
 UNPROVED = [
     'validate_iff_valid_ranked (false of the code: a mutable set at a rank is accepted; see _partial/_witness)',
@@ -76,6 +76,7 @@ NOT_VERIFIED = [
     'validators constructed with explicit per-rank / per-count checker dictionaries (plain dicts) are checked by the oracle only, '
     'not modelled in Lean (they raise KeyError for unlisted keys: open finding)',
     'the defaultdict of per-rank / per-count checkers is modelled as lookup-with-default',
+    'the predicates Obj.hashable / Obj.wf used as theorem hypotheses are validated against hash() of the real objects (op shape)',
 ]
 EXHAUSTIVE = {'thorough': True}
 TECHNIQUE = ('Lean 4 proof that each validator model accepts exactly the declaratively valid ballots (all values of the grammar, all '
